@@ -44,6 +44,8 @@ def run(tier):
     skipped_programs = 0
     skipped_stmts = 0
     unreachable_marked = 0
+    unused_checked = 0
+    unused_msg = langcheck.info()["semantic"]["unused-assignment"]
     families = ("GenCapCases", "GenLoopCases")
     for module, env in profiles(tier) + [(f, {}) for f in families]:
         r = le.generate(module, env=env, timeout=2400, cfg="lang/%s.cfg" % module if module in families else "lang/MCGen.cfg",
@@ -75,6 +77,20 @@ def run(tier):
                 if executed & marked:
                     v.finding("unreachable-executed:%s" % le.core_key(src), "a statement reported as unreachable executed (offsets %s)\n%s" % (sorted(executed & marked), src),
                               {"source": src, "offsets": sorted(executed & marked)})
+                # "a value reported as never read is never observed": the reference machine records def-use pairs
+                # <<writing statement, reading statement>>; an `Unused assignment` warning on W is wrong if the value W
+                # wrote was read by a statement that is not itself reported unused (whose read could be dead with it)
+                if "used" in c:
+                    inv = {off: sid for sid, off in maps["stmt"].items()}
+                    flagged = {inv.get(d["span"][0]) for d in fn.get("diags", []) if d["msg"] == unused_msg and d["sev"] == "warning"}
+                    flagged.discard(None)
+                    unused_checked += len(flagged)
+                    pairs = [tuple(x) for x in nsast.seq(c["used"])]
+                    for w in flagged:
+                        readers = sorted({r for (ww, r) in pairs if ww == w and r not in flagged})
+                        if readers:
+                            v.finding("unused-observed:%s" % le.core_key(src), "the value assigned by the statement at offset %s is reported as never read, but the reference run reads it (statement(s) %s)\n%s"
+                                      % (maps["stmt"][w], readers, src), {"source": src, "statement_offset": maps["stmt"][w], "readers": readers})
                 sk = [e for e in fp.get("events", []) if e.get("ev") == "stmt" and e.get("what") == "skip"]
                 pl = fp.get("plan") or {}
                 if sk or pl.get("funs"):
@@ -106,6 +122,7 @@ def run(tier):
     cov["programs_where_the_plan_skipped_something"] = skipped_programs
     cov["statements_skipped"] = skipped_stmts
     cov["unreachable_warnings_checked"] = unreachable_marked
+    cov["unused_assignment_warnings_checked_against_reference_def_use"] = unused_checked
     cov["distinct_nontrivial"] = skipped_programs
     cov["rule"] += "; for C03 a program is non-trivial if the plan run actually skipped a statement or a definition"
     v.coverage = cov
